@@ -74,8 +74,8 @@ impl Scenario for Services {
 
     fn budget(&self, tier: Tier) -> u64 {
         match tier {
-            Tier::Quick => 3_000,
-            Tier::Thorough => 150_000,
+            Tier::Quick => 20_000,
+            Tier::Thorough => 2_000_000,
         }
     }
 
